@@ -498,19 +498,19 @@ def rule_r7(F, rep, rid="C12.R7"):
 
 
 def run(F, rep, tier):
-    rule_r1_r3(F, rep)
-    rule_r2(F, rep)
-    rule_r2b(F, rep)
-    rule_r2c(F, rep)
-    rule_r6(F, rep)
-    rule_r7(F, rep)
+    rep.attempt(rule_r1_r3, F, rep)
+    rep.attempt(rule_r2, F, rep)
+    rep.attempt(rule_r2b, F, rep)
+    rep.attempt(rule_r2c, F, rep)
+    rep.attempt(rule_r6, F, rep)
+    rep.attempt(rule_r7, F, rep)
     from . import visibility
-    visibility.rule(F, rep, "C07.R4")
-    visibility.rule_partition(F, rep, "C07.R6")
-    rule_r4(F, rep)
+    rep.attempt(visibility.rule, F, rep, "C07.R4")
+    rep.attempt(visibility.rule_partition, F, rep, "C07.R6")
+    rep.attempt(rule_r4, F, rep)
     from . import c01
-    c01.rule_r2(F, rep)
-    rule_r5(F, rep)
+    rep.attempt(c01.rule_r2, F, rep)
+    rep.attempt(rule_r5, F, rep)
     rep.assume("byte-exact relations between modes, behaviour of a closed/full stdout at the OS level and clap's argument "
                "grammar are not decided")
     return EXPLANATION
